@@ -34,6 +34,7 @@ TRUSTED_EXTRA = ["harness/ctl_pool.cpp maps std::condition_variable / std::threa
                  "job bodies run with the thread's coroutine ready queue switched off (a cancelled coroutine is resumed at once): the ready queue is C05's subject"]
 
 KINDS = [0, 1, 2, 3, 4, 5]
+TOPKINDS = KINDS + [6]   # 6 (top level only): run_detached of a callable whose move into the queue throws
 # body actions: 0..5 submit a closure of that kind, 6 stop() (last), 7 is_stopped(), 8 any_enqueued(), 9 co_await current()
 
 
@@ -118,7 +119,7 @@ def gen_prog(rng):
     ns = rng.choice([1, 2, 2, 3, 3, 4, 5, 6])
     prog = []
     for _ in range(ns):
-        prog.append(('s', rng.randrange(m), rng.choice(KINDS), rand_body(rng)))
+        prog.append(('s', rng.randrange(m), rng.choice(TOPKINDS), rand_body(rng)))
     # resume(suspend_point) with several prepared coroutines (heap-backed suspend points above 3)
     if rng.random() < 0.2:
         prog.insert(rng.randrange(len(prog) + 1), ('r', rng.randrange(m), rng.choice([1, 2, 3, 4, 4, 5, 6, 7, 9])))
@@ -174,6 +175,19 @@ def gen(seed, tier):
     # destructor against a stop() issued by a job: the destructor must wait for that stop
     for pre in itertools.product(range(3), repeat=5):
         cases.append(mk("d%d" % b, 2, [('s', 0, 3, [6]), ('s', 0, 3, [])], list(pre) + [0] * 4)); b += 1
+    # a callable whose move constructor throws exactly at _queue.push(): run_detached throws, the callable must be destroyed
+    # in the caller (exactly one outcome), nothing is queued; on a stopped pool nothing is moved and nothing throws
+    for n in (1, 2):
+        cases.append(mk("t%d" % b, n, [('s', 0, 6, []), ('s', 0, 3, [])], [1, 0, 1, 0, 2])); b += 1
+        cases.append(mk("t%d" % b, n, [('x', 0), ('s', 0, 6, [])], [0, 1, 0, 2])); b += 1
+        cases.append(mk("t%d" % b, n, [('s', 0, 2, [7]), ('s', 1, 6, [7]), ('s', 0, 6, []), ('x', 1)], [0, 2, 1, 0, 1, 2, 0, 3])); b += 1
+        cases.append(mk("t%d" % b, n, [('s', 0, 6, []), ('s', 0, 6, []), ('s', 0, 0, []), ('j', 0, 2)], [0, 0, 1, 0, 1, 2])); b += 1
+    # three concurrent stop() callers from outside the pool while the only worker is busy: the first one joins, the other two
+    # wait for it and both have to be woken when it has finished
+    for pre in itertools.product(range(4), repeat=5):
+        cases.append(mk("c%d" % b, 1, [('s', 0, 3, [7, 8, 7]), ('x', 0), ('x', 1), ('x', 2)], list(pre) + [3, 2, 1, 0] * 3)); b += 1
+    for pre in itertools.product(range(3), repeat=4):
+        cases.append(mk("c%d" % b, 2, [('s', 1, 2, [7, 6]), ('s', 0, 0, [8, 7]), ('x', 1), ('x', 2), ('x', 0)], list(pre) + [4, 0, 3, 1] * 3)); b += 1
     # resume(suspend_point) with 1..9 prepared coroutines: every one of them has to reach the pool (and run on a worker)
     for k in range(1, 10):
         cases.append(mk("r%d" % b, 2, [('r', 0, k)], [1, 2, 0] * 4)); b += 1
@@ -225,7 +239,16 @@ def gen(seed, tier):
         for (n, prog) in cfgs:
             for pre in itertools.product(range(3), repeat=8):
                 cases.append(mk("x%d" % j, n, prog, pre)); j += 1
-    return cases
+    # engine poolf: the same programs under a finer interleaving (every unlock of the pool mutex is a scheduling point as
+    # well); no model prediction there, the property oracle alone judges the implementation's trace
+    fine = []
+    for c in cases:
+        if c.name[0] in "dce" or (c.name[0] == "g" and int(c.name[1:]) % 4 == 0):
+            fine.append(Case("poolf", "f" + c.name, c.ops))
+    for pre in itertools.product(range(3), repeat=6):
+        fine.append(mk("fd%d" % b, 2, [('s', 0, 3, [6]), ('s', 0, 0, []), ('s', 0, 2, [])], list(pre) + [0, 1, 2] * 4)); b += 1
+        fine[-1].engine = "poolf"
+    return cases + fine
 
 
 def close_case(c):
@@ -275,6 +298,8 @@ def canon(obs):
 
 
 def obs_equal(case, m, i):
+    if case.engine == "poolf":
+        return True    # finer interleaving than the model's steps: only the property oracle judges the trace
     return canon(m) == canon(i)
 
 
